@@ -298,6 +298,61 @@ func ruleR08_7(c *Check) {
 		return true
 	})
 	r.Exists(calls == 2, f, "two callback sites", nil, "expected the end-marker and the plain-entry callback sites")
+	// transaction framing: the open transaction's timestamp (the variable reset to 0 in the end-marker arm)
+	var lastCommit *types.Var
+	f.walk(func(n ast.Node) bool {
+		as, ok := n.(*ast.AssignStmt)
+		if !ok || as.Tok != token.ASSIGN || len(as.Lhs) != 1 || len(as.Rhs) != 1 {
+			return true
+		}
+		if v, isC := w.constInt(as.Rhs[0]); !isC || v != 0 {
+			return true
+		}
+		if id, ok := as.Lhs[0].(*ast.Ident); ok && w.bitGuard(w.Guards(f, as), bitFin) == 1 {
+			if lv, ok := w.Use(id).(*types.Var); ok && isIntegerType(lv.Type()) {
+				lastCommit = lv
+			}
+		}
+		return true
+	})
+	if lastCommit == nil {
+		panic(anchorError{"open-transaction timestamp of logFile.iterate (reset to 0 at the end marker)"})
+	}
+	isLC := func(e ast.Expr) bool { id, ok := unparen(e).(*ast.Ident); return ok && w.Use(id) == types.Object(lastCommit) }
+	isTs := func(e ast.Expr) bool { return w.isCallTo(e, w.Func("y.ParseTs")) }
+	// (a) a transaction's timestamp is adopted only when no transaction is open
+	for _, s := range f.Sites(selStoreVar(lastCommit)) {
+		as, ok := s.(*ast.AssignStmt)
+		if !ok || as.Tok == token.DEFINE || len(as.Rhs) != 1 {
+			continue
+		}
+		if v, isC := w.constInt(as.Rhs[0]); isC && v == 0 {
+			continue
+		}
+		op, g := w.guardRel(w.Guards(f, as), isLC, w.isConst(0), false)
+		r.Check(g != nil && op == token.EQL, f, k.key("a transaction's timestamp is adopted only when none is open", w, as), as, "the open-transaction timestamp is overwritten while a transaction is being collected: entries of an unfinished transaction are delivered with the next one")
+	}
+	// (b) an entry is buffered only if its timestamp is the open transaction's
+	buffered := 0
+	f.walk(func(n ast.Node) bool {
+		as, ok := n.(*ast.AssignStmt)
+		if !ok || len(as.Rhs) != 1 {
+			return true
+		}
+		call, ok := unparen(as.Rhs[0]).(*ast.CallExpr)
+		if !ok || !isBuiltin(w, call, "append") {
+			return true
+		}
+		gs := w.Guards(f, as)
+		if w.bitGuard(gs, bitTxn) != 1 {
+			return true
+		}
+		buffered++
+		op, g := w.guardRel(gs, isLC, isTs, false)
+		r.Check(g != nil && op == token.EQL, f, k.key("buffered only under the open transaction's timestamp", w, as), as, "a bitTxn entry is buffered although its timestamp differs from the transaction being collected")
+		return true
+	})
+	r.Exists(buffered >= 1, f, "transaction entries are buffered", nil, "no append under the bitTxn arm")
 	// validEndOffset stores: only in those two arms
 	var veo *types.Var
 	f.walk(func(n ast.Node) bool {
@@ -638,7 +693,13 @@ func ruleR09_4(c *Check) {
 		}
 	}
 	if off == nil {
-		panic(anchorError{"offset result of ReplayManifestFile"})
+		// not a local at all (e.g. the counting reader's position): it moves with every read, so
+		// after a torn tail it points past the partial record instead of at its start
+		for _, e := range f.successExits() {
+			rs := e.Node.(*ast.ReturnStmt)
+			r.Check(false, f, "truncation offset is a value captured before the record was read", rs, "ReplayManifestFile returns "+short(w, rs.Results[1])+" as the truncation offset: after a partial record this is past the garbage, which then stays in the file and hides every later change set")
+		}
+		return
 	}
 	stores := f.Sites(selStoreVar(off))
 	r.Exists(len(stores) >= 1, f, "offset assigned", nil, "offset never assigned")
@@ -1340,7 +1401,37 @@ func ruleR17_5(c *Check) {
 	}
 }
 
+func ruleR17_6(c *Check) {
+	w := c.W
+	r := c.Rule("R17.6", "E1", 3, "manifestFile.addChanges appends a change set to the file only after applyChangeSet accepted it for the in-memory manifest (the write is dominated by the apply, and is unreachable when the apply returned an error); ReplayManifestFile applies with the same function, so whatever is in the file replays",
+		"a change set that the in-memory manifest rejects (a create of an existing table id, a delete of an unknown one) but that was already appended makes every later replay fail: the database cannot be opened again")
+	f := w.F("badger.manifestFile.addChanges")
+	apply := w.Func("badger.applyChangeSet")
+	fp := w.Field("badger.manifestFile.fp")
+	write := selPred("mf.fp.Write", func(w *World, fn *Fn, n ast.Node) bool {
+		call, ok := n.(*ast.CallExpr)
+		if !ok {
+			return false
+		}
+		se, ok := unparen(call.Fun).(*ast.SelectorExpr)
+		return ok && (se.Sel.Name == "Write" || se.Sel.Name == "WriteAt" || se.Sel.Name == "WriteString") && w.fieldOf(se.X) == fp
+	})
+	sites := f.Sites(write)
+	r.Exists(len(sites) >= 1 && len(f.Sites(selCall(apply))) == 1, f, "apply and append sites", nil, "expected one applyChangeSet call and a write to the manifest file in addChanges")
+	r.DomAll(f, "change set appended only after it was applied", write, 0, selCall(apply), 0)
+	for _, s := range sites {
+		r.Check(w.errNilGuard(f, s, apply), f, "nothing is appended when the apply failed", s, "the file write is reachable although applyChangeSet returned an error")
+	}
+	for _, s := range f.Sites(selCallName(w, "badger.manifestFile.rewrite")) {
+		r.Check(w.errNilGuard(f, s, apply), f, "no rewrite when the apply failed", s, "the rewrite is reachable although applyChangeSet returned an error")
+	}
+	rp := w.F("badger.ReplayManifestFile")
+	r.Exists(len(rp.Sites(selCall(apply))) == 1, rp, "replay applies with applyChangeSet", nil, "ReplayManifestFile does not use applyChangeSet")
+}
+
 func propC17(c *Check) {
+	ruleR17_6(c)
+	ruleR09_4(c)
 	ruleR17_1(c)
 	ruleR17_2(c)
 	ruleR17_3(c)
